@@ -1,7 +1,9 @@
 """Serialization/deserialization of tasks to/from JSON."""
 
 from dataclasses import fields
-from enum import Enum
+from enum import Enum, Flag
+from functools import reduce
+from operator import or_
 from typing import Optional, Type, Union, cast
 
 from frozendict import frozendict
@@ -110,15 +112,33 @@ class Serializer:
         return isinstance(serialized, dict) and bool(serialized.get('_is_enum', False))
 
     def serialize_enum(self, value: Enum) -> jsonable:
-        return {
+        serialized: dict[str, jsonable] = {
             '_is_enum': True,
             '__class__': self.serialize_class(value.__class__),
             'name': value.name,
         }
+        if value.name is None:
+            # Values of a Flag enum that have no name (the empty flag,
+            # bits without a member) can only be told apart by value.
+            serialized['value'] = value.value
+        return serialized
 
     def deserialize_enum(self, serialized: dict[str, jsonable]) -> Enum:
         enum_cls = self.deserialize_class(serialized['__class__'])
-        return enum_cls[serialized['name']]
+        name = serialized['name']
+        if name is None:
+            return enum_cls(serialized['value'])
+        try:
+            return enum_cls[name]
+        except KeyError:
+            if issubclass(enum_cls, Flag):
+                # A combination of Flag members is named 'A|B' (bits
+                # without a member appear as numbers: 'A|8')
+                return reduce(or_, (
+                    enum_cls(int(part)) if part.isdigit() else enum_cls[part]
+                    for part in cast(str, name).split('|')
+                ))
+            raise
 
     def serialize_class(self, cls: Type) -> jsonable:
         return f'{cls.__module__}.{cls.__qualname__}'
